@@ -11,7 +11,7 @@ use std::{
     sync::Mutex,
 };
 
-pub use crate::socket::MioStream;
+pub use crate::{socket::MioStream, worker::verif::*};
 
 /// Points inside the accept loop at which a generated schedule may run other "threads".
 #[derive(Debug, Clone, Copy, PartialEq, Eq)]
@@ -98,4 +98,36 @@ pub(crate) fn take_injected(fd: RawFd) -> Option<io::Error> {
         Some(code) => io::Error::from_raw_os_error(code),
         None => io::Error::new(kind, "injected accept error"),
     })
+}
+
+/// `Availability` for the exhaustive differential check (property C04).
+pub struct AvailabilityV(crate::availability::Availability);
+
+impl Default for AvailabilityV {
+    fn default() -> Self {
+        Self::new()
+    }
+}
+
+impl AvailabilityV {
+    pub fn new() -> Self {
+        AvailabilityV(crate::availability::Availability::default())
+    }
+
+    pub fn available(&self) -> bool {
+        self.0.available()
+    }
+
+    pub fn get(&self, idx: usize) -> bool {
+        self.0.get_available(idx)
+    }
+
+    pub fn set(&mut self, idx: usize, avail: bool) {
+        self.0.set_available(idx, avail)
+    }
+
+    pub fn set_all(&mut self, handles: &[HandleAccept]) {
+        // same loop as `set_available_all`, over the opaque handles
+        handles.iter().for_each(|h| self.0.set_available(h.idx(), true))
+    }
 }
